@@ -118,6 +118,21 @@ func (p *Prog) nonNilErr(v ssa.Value, at *ssa.BasicBlock, depth int) bool {
 	switch x := v.(type) {
 	case *ssa.Const:
 		return false
+	case *ssa.ChangeInterface:
+		// ErrX (of an error-like interface type) = constructor(...), never reassigned
+		if u, ok := x.X.(*ssa.UnOp); ok && u.Op == token.MUL {
+			if g, ok := u.X.(*ssa.Global); ok && g.Pkg != nil {
+				key := g.Pkg.Pkg.Name() + "." + g.Name()
+				gf := p.globals()
+				if len(gf.writers[key]) == 0 {
+					switch gf.initVal[key].(type) {
+					case *ssa.Call, *ssa.Alloc, *ssa.MakeInterface:
+						return true
+					}
+				}
+			}
+		}
+		return p.nonNilErr(x.X, at, depth+1)
 	case *ssa.MakeInterface:
 		// a concrete non-pointer value, or a freshly allocated pointer
 		switch x.X.(type) {
@@ -126,6 +141,20 @@ func (p *Prog) nonNilErr(v ssa.Value, at *ssa.BasicBlock, depth int) bool {
 		}
 		if _, isPtr := x.X.Type().Underlying().(*types.Pointer); !isPtr {
 			return true
+		}
+		// a package-level error object of a concrete pointer type (ErrX = NewErrorWCode(...)) that is
+		// initialised once by a constructor and never reassigned
+		if u, ok := x.X.(*ssa.UnOp); ok && u.Op == token.MUL {
+			if g, ok := u.X.(*ssa.Global); ok && g.Pkg != nil {
+				key := g.Pkg.Pkg.Name() + "." + g.Name()
+				gf := p.globals()
+				if len(gf.writers[key]) == 0 {
+					switch gf.initVal[key].(type) {
+					case *ssa.Call, *ssa.Alloc:
+						return true
+					}
+				}
+			}
 		}
 		if c, ok := x.X.(*ssa.Call); ok {
 			_ = c
